@@ -147,6 +147,25 @@ CLAIMS.update({
             'TLA+ spec + TLC exhaustive, spec->code replay of every state, code->spec trace validation', 'DESIGN.md section 5 C12', 'fits'),
 })
 
+WCS_NOTE = ('The WCS family is the conformal affine one (CD = scale * rotation * parity) with TAN/SIN/CAR projections and ICRS/FK5/FK4/Galactic '
+            'frames near the reference pixel; astropy projections and frame definitions are trusted; distorted WCS are not covered.')
+CLAIMS.update({
+    'C06': ('model_checking',
+            'Wcs.tla (conformal affine abstraction; to_sky/to_pixel shaped like the code: lengths x// local scale, angle -/+ (north - 90 deg), '
+            'meta/visual copied, compounds component-wise) is model-checked for ToPixel(ToSky(r)) = r on class, geometry, include and visual for '
+            'every class incl. compounds, and for independence of the WCS rotation; every state is replayed on a real astropy WCS built from '
+            'the record (classes, 1e-6 relative geometry after the round trips, equal meta/visual/include, sky membership = pixel-image '
+            'membership away from the boundary); random conversion/copy walks are validated step by step by Trace_Wcs.tla.',
+            WCS_NOTE, 'TLA+ spec + TLC, spec->code replay on real WCS objects, code->spec trace validation', 'DESIGN.md section 5 C06', 'wcs'),
+    'C07': ('model_checking',
+            'The model chooses the intended pixel image (lattice centre, sizes, one of 44 rational directions) and the WCS record (44 rotations x '
+            '4 scales); TLC checks that the sky description does not depend on the WCS rotation and that sizes scale; the harness derives the '
+            'real sky region from the model, calls the real to_pixel and compares centre (1e-6 px), sizes (1e-7 + 2 theta^2) and angle '
+            '(0.005 deg + 2 theta tan|lat|, or 2e-7 rad exactly at the reference pixel) - tolerances derived from the affine abstraction, '
+            'not tuned; the recorded results are validated against the integer prediction by Trace_Wcs7.tla.',
+            WCS_NOTE, 'TLA+ spec + TLC, spec->code replay on real WCS objects, code->spec trace validation', 'DESIGN.md section 5 C07', 'wcs'),
+})
+
 PENDING_REASON = ('specification module for this property is designed in DESIGN.md but its TLA+ module and '
                   'conformance binding are not built yet; not claimed until they are')
 
@@ -218,6 +237,8 @@ ENGINES.append({'name': 'fileio', 'path': 'specs/FileIO.tla specs/Trace_FileIO.t
                 'serves_properties': ['C14'], 'kind_free_text': 'step-ordered write model executed on a scratch filesystem'})
 ENGINES.append({'name': 'fits', 'path': 'specs/Fits.tla specs/MC_Fits.tla specs/Trace_Fits.tla vf/engines/c12.py',
                 'serves_properties': ['C12'], 'kind_free_text': 'FITS region table writer/reader model'})
+ENGINES.append({'name': 'wcs', 'path': 'specs/Wcs.tla specs/MC_Wcs.tla specs/Trace_Wcs.tla specs/Trace_Wcs7.tla vf/wcsutil.py vf/engines/c06.py c07.py',
+                'serves_properties': ['C06', 'C07'], 'kind_free_text': 'conformal affine WCS abstraction of region conversion'})
 NA = {}
 
 
